@@ -711,7 +711,8 @@ func (context *layoutContext) makePage(rootBox bo.BlockLevelBoxITF, pageType uti
 		overflow := context.layoutFootnote(reportedFootnote)
 		if overflow && i != 0 {
 			context.reportFootnote(reportedFootnote)
-			context.reportedFootnotes = context.reportedFootnotes[i:]
+			// this footnote and the following ones go to the next page
+			context.reportedFootnotes = append([]Box(nil), reportedFootnotes[i:]...)
 			break
 		}
 	}
